@@ -875,9 +875,24 @@ http_query_val_get_ex(const uint8_t *query, size_t query_size,
 		val ++; /* Skip '&' in buf start. */
 	}
 	for (;;) {
-		val_end = mem_chr_ptr((val + 1), query, query_size, '=');
-		if (NULL == val_end)
-			return (ESPIPE);
+		/* Look for '=' inside current [&]name=val[&] piece only. */
+		val_end = mem_chr_ptr(val, query, query_size, '&');
+		if (NULL == val_end) {
+			val_end = query_max;
+		}
+		val_end = mem_chr_ptr((val + 1), query,
+		    (size_t)(val_end - query), '=');
+		if (NULL == val_end) { /* Name without value: skip it. */
+			val = mem_chr_ptr(val, query, query_size, '&');
+			if (NULL == val)
+				return (ESPIPE);
+			while (query_max > val && '&' == (*val)) {
+				val ++;
+			}
+			if (query_max == val)
+				return (ESPIPE);
+			continue;
+		}
 		/* Compare val_name and data beetween ['&'] and '=' */
 		if (0 == mem_cmpin(val, (size_t)(val_end - val),
 		    val_name, val_name_size)) {
